@@ -382,7 +382,7 @@ void hc_seed_families (const Seed *s, HcRun run)
 		for (int v = 0 ; v < n32 + 4 ; v++)
 		{	unsigned char t [4] ; m.a = q [i] ; m.v = v < n32 ? w32_values [v] : extra [v - n32] ; if (m.a + 4 > s->len) continue ;
 			put_word (t, m.v, 4, m.be) ; if (! memcmp (t, s->data + m.a, 4)) continue ;
-			run (s, &m, light | (hc_is_reference (s) ? 1 << HR_PIPE : 0), 0) ;	/* size fields over a pipe: the header stays cached, skips cannot seek */
+			run (s, &m, light | (hc_is_reference (s) ? 1 << HR_PIPE : 0), 0) ;	/* size fields also over a pipe: the header stays cached, skips cannot seek */
 			}
 		}
 	if (s->wide)
@@ -395,7 +395,11 @@ void hc_seed_families (const Seed *s, HcRun run)
 		}
 	/* F: the whole data region set to one byte value, every value (saturating / degenerate codec input) */
 	m.kind = M_FILL ; m.a = s->dataoff ; m.be = 0 ;
-	if (s->dataoff < s->len) for (int v = 0 ; v < 256 ; v++) { m.v = v ; m.b = 0 ; run (s, &m, vio, 0) ; m.b = s->dataoff + 2048 ; run (s, &m, vio, 0) ; }
+	if (s->dataoff < s->len)
+	{	static const unsigned char few [16] = { 0x00, 0x01, 0x07, 0x08, 0x0f, 0x10, 0x55, 0x70, 0x77, 0x7f, 0x80, 0x88, 0xaa, 0xf0, 0xf7, 0xff } ;
+		int all = vl_opts.thorough || hc_is_reference (s) || s->raw_format != 0 ;	/* quick: every value for the reference and the headerless seeds, 16 values for the others */
+		for (int k = 0 ; k < (all ? 256 : 16) ; k++) { m.v = all ? k : few [k] ; m.b = 0 ; run (s, &m, vio, 0) ; m.b = s->dataoff + 2048 ; run (s, &m, vio, 0) ; }
+		}
 	m.a = 0 ; m.v = 0 ; m.b = 0 ;
 	/* C: chunk edits */
 	if (s->chunk_kind)
